@@ -14,7 +14,7 @@ emitter), Trace_ConvertGraph.tla (judge of recorded executions).
    (GraphReportedIsUsed), and computes exactly the declarative provenance (WalkIsDeclarative).
    Eight negative controls (one wrong variant each) must be rejected.
 2. spec -> code (M1): TLC emits every configuration (thorough) or a stratified sample (quick: one
-   residue class of masks per head + the masks 0, 7, 2047) with the expected mode, graph, outcome
+   residue class (mod 101) of masks per head + 18 structured masks) with the expected mode, graph, outcome
    and the provenance tree (node -> kernel).
 3. code -> spec (M2): for every emitted configuration the driver builds a DataArray and a Dataset
    with random, mutually inconsistent supplied coordinates, calls deduce_conversion_graph and
@@ -34,6 +34,7 @@ from __future__ import annotations
 import json
 import multiprocessing as mp
 import os
+import shutil
 import threading
 import time
 
@@ -145,22 +146,23 @@ def _static_events(ctx, tab):
 
 
 def _emit_cases(ctx):
+    """M1: TLC writes the expected records; they stay JSON lines here (the workers parse them)"""
     out = ctx.tmp / 'c02-cases.ndjson'
     cfg = ctx.tmp / 'Emit_ConvertGraph.cfg'
-    stride = 1 if ctx.thorough else 71
+    stride = 1 if ctx.thorough else 101
     phase = ctx.seed % stride
     cfg.write_text(f'SPECIFICATION ESpec\nCONSTANTS\n  Stride = {stride}\n  Phase = {phase}\n')
-    res = ctx.tlc('conv/Emit_ConvertGraph.tla', str(cfg), workers=1, env={'OUT_FILE': str(out)},
+    res = L.spaced_tlc(ctx, 'conv/Emit_ConvertGraph.tla', str(cfg), workers=1, env={'OUT_FILE': str(out)},
                   timeout=900, count=False)
     require_ok(ctx, res, 'Emit_ConvertGraph')
     em = res.tagged('EMITTED')
-    cases = [json.loads(line) for line in open(out)]
-    if not em or em[0][1] != len(cases) or not cases:
-        raise MachineryError(f'case emission incomplete: {em} vs {len(cases)} records')
-    if ctx.thorough and len(cases) != 430080:
-        raise MachineryError(f'expected the complete space of 430080 configurations, got {len(cases)}')
+    lines = [ln for ln in open(out) if ln.strip()]
+    if not em or em[0][1] != len(lines) or not lines:
+        raise MachineryError(f'case emission incomplete: {em} vs {len(lines)} records')
+    if ctx.thorough and len(lines) != 430080:
+        raise MachineryError(f'expected the complete space of 430080 configurations, got {len(lines)}')
     out.unlink()
-    return cases
+    return lines
 
 
 def _run_negs(ctx):
@@ -168,9 +170,8 @@ def _run_negs(ctx):
     errs = []
 
     def one(i, name):
-        time.sleep(0.15 * (i + 1))  # distinct metadir names
         try:
-            r = ctx.tlc('conv/MC_ConvertGraph.tla', f'Neg_ConvertGraph_{name}.cfg', workers=2,
+            r = L.spaced_tlc(ctx, 'conv/MC_ConvertGraph.tla', f'Neg_ConvertGraph_{name}.cfg', workers=2,
                         expect_error=True, timeout=600)
             want = dict(n.split(':') for n in NEG)[name]
             if want not in r.error:
@@ -178,13 +179,70 @@ def _run_negs(ctx):
         except Exception as e:  # noqa: BLE001
             errs.append(f'{name}: {e}')
 
+    def coverage():
+        # non-vacuity: every action of the walk is taken on the small space (DESIGN 3.5)
+        try:
+            r = L.spaced_tlc(ctx, 'conv/MC_ConvertGraph.tla', 'Cov_ConvertGraph.cfg', workers=2, coverage=True, timeout=600,
+                        count=False)
+            require_ok(ctx, r, 'ConvertGraph coverage run')
+            require_actions(r, ['Supply', 'DeduceMode', 'SelectGraph', 'Found', 'Fail', 'Descend', 'Compute',
+                                'Finish'])
+        except Exception as e:  # noqa: BLE001
+            errs.append(f'coverage: {e}')
+
     threads = [threading.Thread(target=one, args=(i, n.split(':')[0])) for i, n in enumerate(NEG)]
+    threads.append(threading.Thread(target=coverage))
     for t in threads:
         t.start()
     for t in threads:
         t.join()
     if errs:
         raise MachineryError('; '.join(errs))
+
+
+def _trace_selftest(ctx, tab, events, rejected):
+    """non-vacuity of the judge: a slice of the recorded trace with (a) one value flag flipped,
+    (b) one computed set replaced by another set, (c) the definition of one reported graph removed
+    must be rejected at exactly those events (DESIGN 3.5)."""
+    import copy
+
+    ok_evs = [e for e in events if e['da']['out'] == 'ok' and e['ds']['out'] == 'ok' and e['tid'] not in rejected]
+    if len(ok_evs) < 3 or len({e['g'] for e in ok_evs}) < 2:
+        if rejected:  # the implementation is broken so badly that no clean slice exists; verdicts stand
+            ctx.extra['trace_selftest'] = 'skipped: no accepted answered events to corrupt'
+            return
+        raise MachineryError('trace self-test: not enough answered events')
+    sl = copy.deepcopy(ok_evs[::max(1, len(ok_evs) // 150)][:150])
+    drop = sl[0]['g']
+    rest = [e for e in sl if e['g'] != drop]
+    if len(rest) < 2:
+        rest = [e for e in copy.deepcopy(ok_evs) if e['g'] != drop][:2]
+        sl += rest
+    if len(rest) < 2:
+        ctx.extra['trace_selftest'] = 'skipped: answered events use a single graph'
+        return
+    a, b = rest[0], rest[-1]
+    a['ds']['val'] = False
+    other = next(d['id'] for d in tab.defs if d['kind'] == 'names' and d['id'] != b['da']['add'])
+    b['da']['add'] = other
+    expect = {a['tid']: 'value_Dataset', b['tid']: 'computed_set_DataArray'}
+    for e in sl:
+        if e['g'] == drop:
+            expect[e['tid']] = 'deduce_conversion_graph_raised'
+    defs = [d for d in tab.defs if not (d['kind'] == 'graph' and d['id'] == drop)]
+    tf = ctx.tmp / 'c02-selftest.ndjson'
+    write_ndjson(tf, defs + sl)
+    tr = L.spaced_tlc(ctx, 'conv/Trace_ConvertGraph.tla', workers=1, env={'TRACE_FILE': str(tf)}, timeout=600, count=False)
+    require_ok(ctx, tr, 'Trace_ConvertGraph self-test')
+    got = {tid: clause for _, _line, tid, clause in tr.tagged('REJECT')}
+    if got != expect:
+        if rejected:  # do not let the judge's self-test mask real verdicts
+            ctx.extra['trace_selftest'] = 'inconclusive on a tree with violations'
+            return
+        diff = {k: (got.get(k), expect.get(k)) for k in set(got) | set(expect) if got.get(k) != expect.get(k)}
+        raise MachineryError(f'trace self-test: judge verdicts differ from the planted corruptions (tid: got, expected): '
+                             f'{dict(list(diff.items())[:8])}')
+    ctx.extra['trace_selftest'] = f'{len(expect)} corrupted events rejected, {len(sl) - len(expect)} accepted'
 
 
 def _key(c, clause):
@@ -217,7 +275,7 @@ def run(ctx):
         except Exception as e:  # noqa: BLE001
             neg_err.append(e)
 
-    res = ctx.tlc('conv/MC_ConvertGraph.tla', cfg, timeout=1500, coverage=False, workers=_tlc_workers())
+    res = L.spaced_tlc(ctx, 'conv/MC_ConvertGraph.tla', cfg, timeout=1500, coverage=False, workers=_tlc_workers())
     require_ok(ctx, res, 'ConvertGraph model')
     ctx.exhaustive = bool(ctx.thorough)
     negt = threading.Thread(target=negs)
@@ -230,72 +288,104 @@ def run(ctx):
         raise neg_err[0] if isinstance(neg_err[0], MachineryError) else MachineryError(str(neg_err[0]))
 
     # ---- 3. M2: run the real API (multiprocessing), record, let TLC judge
-    nproc = _nproc() if len(cases) > 500 else 1
+    lines = cases
+    nproc = _nproc() if len(lines) > 500 else 1
     chunk = 400
-    jobs = [(cases[i:i + chunk], ctx.seed) for i in range(0, len(cases), chunk)]
-    t0 = time.time()
-    if nproc > 1:
-        with mp.get_context('spawn').Pool(nproc) as pool:
-            results = [r for part in pool.imap(L.run_cases, jobs, chunksize=1) for r in part]
-    else:
-        results = [r for j in jobs for r in L.run_cases(j)]
-    ctx.extra['convert_wall_s'] = round(time.time() - t0, 1)
-    if len(results) != len(cases):
-        raise MachineryError('lost results')
-
+    jobs = [(lines[i:i + chunk], ctx.seed) for i in range(0, len(lines), chunk)]
     tab = _Intern()
     static = _static_events(ctx, tab)
-    events = []
-    details = []
+    per = 60000
+    bodies = []            # (path, number of events) of the trace chunks, without the definitions
+    cur, cur_n = None, 0
+    sample_evs = []
     worst = 0.0
     nontriv = 0
-    for tid, (c, r) in enumerate(zip(cases, results), start=1):
-        if 'harness_error' in r:
-            raise MachineryError(f'harness error on {r["c"]}: {r["harness_error"]}')
-        ev = {'ev': 'convert', 'tid': tid, 'o': c['o'], 't': c['t'], 's': c['s'], 'm': c['m'], 'x': c['x'],
-              'pv': tab.get('pairs', r['prov']),
-              'g': tab.get('graph', r['graph']) if r['dg'] == 'ok' else (-1 if r['dg'] == 'RuntimeError' else -2),
-              'copy': bool(r['copy'])}
-        for k in ('da', 'ds'):
-            ob = r[k]
-            ev[k] = {'out': _out_class(ob['out']), 'add': tab.get('names', ob['added']),
-                     'val': bool(ob['val']), 'same': bool(ob['same']), 'has': bool(ob['has'])}
-            if ob['out'] == 'ok':
-                worst = max(worst, ob['worst'])
-        events.append(ev)
-        details.append(r)
-        nt = c['outcome'] == 'ok' and isinstance(c['prov'], dict) and len(c['prov']) > 0
-        nontriv += nt
-        ctx.case(nontrivial_id=(c['o'], c['t'], c['s'], c['m'], c['x']) if nt else None, n=2)
+    expected_counts = {'ok': 0, 'missing': 0, 'mode_error': 0}
+    ok_pool = []           # a few accepted-looking answered events for the judge's self-test
+    tid = 0
+    t0 = time.time()
+
+    def open_body():
+        nonlocal cur, cur_n
+        path = ctx.tmp / f'c02-body-{len(bodies)}.ndjson'
+        cur, cur_n = open(path, 'w'), 0
+        bodies.append([path, 0])
+
+    open_body()
+    for e in static:
+        cur.write(json.dumps(e) + '\n')
+        cur_n += 1
+    pool = mp.get_context('spawn').Pool(nproc) if nproc > 1 else None
+    try:
+        stream = pool.imap(L.run_cases, jobs, chunksize=1) if pool else map(L.run_cases, jobs)
+        for part, graphs in stream:
+            gids = [tab.get('graph', g) for g in graphs]
+            for r in part:
+                if r[0] == 'harness_error':
+                    raise MachineryError(f'harness error on {r[1]}: {r[2]}')
+                o, t, s, m, x, expected, prov, g, copy_ok, da, ds = r
+                tid += 1
+                ev = {'ev': 'convert', 'tid': tid, 'o': o, 't': t, 's': s, 'm': m, 'x': x,
+                      'pv': tab.get('pairs', prov), 'g': gids[g] if g >= 0 else g, 'copy': bool(copy_ok)}
+                for k, ob in (('da', da), ('ds', ds)):
+                    ev[k] = {'out': _out_class(ob[0]), 'add': tab.get('names', ob[1]), 'val': bool(ob[2]),
+                             'same': bool(ob[3]), 'has': bool(ob[4])}
+                    if ob[0] == 'ok':
+                        worst = max(worst, ob[5])
+                if cur_n >= per:
+                    cur.close()
+                    bodies[-1][1] = cur_n
+                    open_body()
+                cur.write(json.dumps(ev) + '\n')
+                cur_n += 1
+                expected_counts[expected] = expected_counts.get(expected, 0) + 1
+                nt = expected == 'ok' and len(prov) > 0
+                nontriv += nt
+                ctx.case(nontrivial_id=(o, t, s, m, x) if nt else None, n=2)
+                if len(sample_evs) < 3 and (nt or tid == 1):
+                    sample_evs.append(ev)
+                if da[0] == 'ok' and ds[0] == 'ok' and (len(ok_pool) < 400 or tid % 97 == 0) and len(ok_pool) < 3000:
+                    ok_pool.append(ev)
+    finally:
+        if pool:
+            pool.terminate()
+            pool.join()
+    cur.close()
+    bodies[-1][1] = cur_n
+    if tid != len(lines):
+        raise MachineryError('lost results')
+    ctx.extra['convert_wall_s'] = round(time.time() - t0, 1)
     ctx.extra['worst_relative_error_of_accepted_values'] = worst
-    ctx.extra['configurations'] = len(cases)
+    ctx.extra['configurations'] = len(lines)
     ctx.extra['distinct_reported_graphs'] = sum(1 for k in tab.ids if k[0] == 'graph')
-    ctx.extra['outcomes_expected'] = {o: sum(1 for c in cases if c['outcome'] == o)
-                                      for o in ('ok', 'missing', 'mode_error')}
-    for e in (events[0], events[len(events) // 2], events[-1]):
+    ctx.extra['outcomes_expected'] = expected_counts
+    for e in sample_evs:
         ctx.sample(e)
 
-    # trace files: every chunk starts with all definitions; chunks are validated concurrently
-    per = 60000
-    parts = [events[i:i + per] for i in range(0, len(events), per)] or [[]]
-    parts[0] = static + parts[0]
-    verdicts = [None] * len(parts)
-    counts = [(0, 0)] * len(parts)
+    # trace files: every chunk = all definitions + its body; chunks are validated concurrently
+    defs_path = ctx.tmp / 'c02-defs.ndjson'
+    write_ndjson(defs_path, tab.defs)
+    ndefs = len(tab.defs)
+    verdicts = [None] * len(bodies)
+    counts = [(0, 0)] * len(bodies)
     errs = []
 
     def validate(i):
-        time.sleep(0.15 * i)
         try:
             tf = ctx.tmp / f'c02-{i}.ndjson'
-            write_ndjson(tf, tab.defs + parts[i])
-            tr = ctx.tlc('conv/Trace_ConvertGraph.tla', workers=1, env={'TRACE_FILE': str(tf)}, timeout=3000,
+            with open(tf, 'wb') as w:
+                for src in (defs_path, bodies[i][0]):
+                    with open(src, 'rb') as r:
+                        shutil.copyfileobj(r, w)
+            tr = L.spaced_tlc(ctx, 'conv/Trace_ConvertGraph.tla', workers=1, env={'TRACE_FILE': str(tf)}, timeout=3000,
                          count=False)
             require_ok(ctx, tr, 'Trace_ConvertGraph')
             counts[i] = (tr.generated, tr.distinct)
             done = tr.tagged('DONE')
-            if not done or done[0][1] != len(tab.defs) + len(parts[i]):
-                raise MachineryError(f'trace validation incomplete: {done} vs {len(tab.defs) + len(parts[i])}')
-            verdicts[i] = tr.tagged('REJECT')
+            if not done or done[0][1] != ndefs + bodies[i][1]:
+                raise MachineryError(f'trace validation incomplete: {done} vs {ndefs + bodies[i][1]}')
+            verdicts[i] = [(line, tid_, clause, _event_at(bodies[i][0], line - ndefs)) for _, line, tid_, clause
+                           in tr.tagged('REJECT')]
             tf.unlink()
         except Exception as e:  # noqa: BLE001
             errs.append(e)
@@ -306,7 +396,7 @@ def run(ctx):
         with sem:
             validate(i)
 
-    threads = [threading.Thread(target=guarded, args=(i,)) for i in range(len(parts))]
+    threads = [threading.Thread(target=guarded, args=(i,)) for i in range(len(bodies))]
     for t in threads:
         t.start()
     for t in threads:
@@ -317,31 +407,46 @@ def run(ctx):
         ctx.states += gen
         ctx.distinct_states += dist
         ctx.transitions += max(gen - 1, 0)
-    ctx.traces(len(events) + len(static))
+    ctx.traces(tid + len(static))
 
-    ndefs = len(tab.defs)
-    for i, rejects in enumerate(verdicts):
-        for _, line, tid, clause in rejects:
-            ev = (tab.defs + parts[i])[line - 1]
+    rejected = set()
+    graph_of = {v: k[1] for k, v in tab.ids.items() if k[0] == 'graph'}
+    for rej in verdicts:
+        for line, rtid, clause, ev in rej:
+            if ev is None or line <= ndefs:
+                raise MachineryError(f'definition event rejected at line {line}: {clause}')
             if ev['ev'] == 'convert':
-                r = details[tid - 1]
-                c = r['c']
+                rejected.add(rtid)
+                c = json.loads(lines[rtid - 1])
+                try:
+                    detail = L.run_case(c, ctx.seed)   # deterministic: re-run for the report
+                except Exception as e:  # noqa: BLE001
+                    detail = {'rerun_failed': repr(e)}
                 ctx.violation(_key(c, clause), {
-                    'configuration': c, 'supplied': L.supplied(c['m']), 'expected': cases[tid - 1],
-                    'clause': clause, 'deduce_conversion_graph': r['dg'], 'reported_graph': r['graph'],
-                    'DataArray': r['da'], 'Dataset': r['ds'], 'seed': ctx.seed,
+                    'expected': c, 'supplied': L.supplied(c['m']), 'clause': clause, 'event': ev,
+                    'observed': detail, 'seed': ctx.seed,
                     'reproduce': 'harness.lib_convert.run_case(expected, seed)'})
             elif ev['ev'] == 'cgraph':
                 ctx.violation(f"conversion_graph({ev['o']}, {ev['t']}, scatter={ev['s']}, {ev['mode']}): {clause}",
-                              {'event': ev, 'graph': next((k[1] for k, v in tab.ids.items() if v == ev['g']), None)})
+                              {'event': ev, 'graph': graph_of.get(ev['g'])})
             elif ev['ev'] == 'factory':
-                ctx.violation(f"graph factory {ev['name']}: {clause}",
-                              {'event': ev, 'graph': next((k[1] for k, v in tab.ids.items() if v == ev['g']), None)})
+                ctx.violation(f"graph factory {ev['name']}: {clause}", {'event': ev, 'graph': graph_of.get(ev['g'])})
             else:
-                raise MachineryError(f'definition event rejected: {ev} {clause} ({ndefs} defs)')
+                raise MachineryError(f'unexpected rejected event {ev}: {clause}')
+    _trace_selftest(ctx, tab, ok_pool, rejected)
     if nontriv == 0:
         raise MachineryError('vacuous run: no derivable configuration with computed coordinates')
 
+
+def _event_at(path, n):
+    """n-th (1-based) event of a body file"""
+    if n < 1:
+        return None
+    with open(path) as f:
+        for i, line in enumerate(f, start=1):
+            if i == n:
+                return json.loads(line)
+    return None
 
 META = {
     'design_ref': 'DESIGN.md §5 C02',
